@@ -161,15 +161,24 @@ func ruleR11_3(w *World, r *Report) {
 				}
 			})
 		}
+		// the version is written into the map after the user data has been decoded into it: a user
+		// key that happens to be the version key must not overwrite the recorded version
+		late := true
+		for _, un := range d.calls("Unmarshal") {
+			if !(d.dominates(un, mux) || (un.n == mux.n && instrDominates(un.in, mux.in))) {
+				late = false
+			}
+		}
+		same = same && late
 		ver := d.name(mux.n, mu.Value)
 		good = ver == "$5" && d.dominates(mux, d.find(rep.(ssa.Instruction))) && canonName(filt.Common().Args[0]) == "$3" && same
-		detail = fmt.Sprintf("version value %s, filter %s: expected the sseq parameter stored before ReplaceOne of the same document, filtered by the id parameter", ver, canonName(filt.Common().Args[0]))
+		detail = fmt.Sprintf("version value %s, filter %s: expected the sseq parameter stored (after decoding the user data into the map) before ReplaceOne of the same document, filtered by the id parameter", ver, canonName(filt.Common().Args[0]))
 	}
 	pos := u.Pos(fn.Pos())
 	if mu != nil {
 		pos = u.Pos(mu.Pos())
 	}
-	r.Check(good, "InsertRealSnapshot/version", pos, "doc[Ver] = sseq before ReplaceOne(FilterByID(id), doc)", detail)
+	r.Check(good, "InsertRealSnapshot/version", pos, "doc[Ver] = sseq after the data is decoded and before ReplaceOne(FilterByID(id), doc)", detail)
 }
 
 // ---------------------------------------------------------------------------------------------
